@@ -221,8 +221,20 @@ pub fn run_full(
     }
 }
 
+/// step budget for runs whose caller has no better estimate: a run that needs more steps than
+/// this on the short lines used there is reported as not terminating (`FuelExhausted`)
+pub const DEFAULT_FUEL: u64 = 200_000_000;
+
 pub fn run(parser: &OptionParser<V>, argv: &[Vec<u8>]) -> Outcome {
-    run_full(parser, argv, &RunOpts::default()).0
+    run_full(
+        parser,
+        argv,
+        &RunOpts {
+            fuel: DEFAULT_FUEL,
+            ..RunOpts::default()
+        },
+    )
+    .0
 }
 
 pub fn run_hooked(parser: &OptionParser<V>, argv: &[Vec<u8>], fuel: u64) -> (Outcome, Hooks) {
